@@ -165,6 +165,8 @@ def main():
     rep_dir = os.path.join(ROOT, "replays", prop)
     for i, b in enumerate(sorted(unlisted)):
         v = total.violations[b]
+        if os.environ.get("VERIF_NO_EVIDENCE"):
+            rep_dir = os.path.join(os.environ.get("VERIF_REPO", "/tmp"), "replays", prop)
         os.makedirs(rep_dir, exist_ok=True)
         safe = "".join(c if c.isalnum() else "_" for c in b)[:80]
         path = os.path.join(rep_dir, "%s.json" % safe)
@@ -195,7 +197,8 @@ def main():
     ev = {"property_id": prop, "tier": a.tier, "seed": seed, "level": "exploration", "coverage": cov,
           "assumptions": list(getattr(mod, "ASSUMPTIONS", [])), "wall_s": round(wall, 2),
           "violations": len(unlisted)}
-    core.write_json(os.path.join(ROOT, "evidence", "%s.json" % prop), ev)
+    if not os.environ.get("VERIF_NO_EVIDENCE"):
+        core.write_json(os.path.join(ROOT, "evidence", "%s.json" % prop), ev)
     print("%s tier=%s seed=%d evaluations=%d nontrivial=%d buckets=%d known=%d wall=%.1fs" % (
         prop, a.tier, seed, total.evaluations, len(total.nontrivial), len(unlisted), len(listed), wall))
     return rc
